@@ -58,6 +58,7 @@ EXTRA_SRC = {
     "x_s9": "'123456789'", "x_sinf": "'inf'", "x_dhuge": "1000000000000000000000.0 * 1000000000000000000000.0",
     "x_objproto": "<*_proto_ = 1*>", "x_objnullproto": "<*_proto_ = NULL, a = 1*>", "x_mapmixed": "<<<1 => 2, 'a' => 3>>>",
     "x_sbig": "'1' * 5000",
+    "x_ldup": "[1, 1, 2]", "x_sdup": "'aab'", "x_setnested": "<<[1], [2]>>",      # duplicates; collections as members
     "x_ihuge": "1" + "0" * 400,          # an int beyond the range of a decimal
 }
 EXTRA_TAGS = sorted(EXTRA_SRC)
@@ -492,6 +493,14 @@ def function_jobs(run, sites, rng, quick):
     # the wider pool: single arguments always, pairs with at least one wide value in the thorough tier
     for s in reps:
         jobs.extend(("fn", s, (t,)) for t in EXTRA_TAGS)
+        if quick:
+            # a wide value next to a few everyday partners (a count, an index, a separator, NULL)
+            partners = ["i0", "i2", "ineg", "null", "sa", "x_i3"]
+            for a in EXTRA_TAGS:
+                for b in partners:
+                    if a != b:
+                        jobs.append(("fn", s, (a, b)))
+                        jobs.append(("fn", s, (b, a)))
         if not quick:
             both = tagset(s) + EXTRA_TAGS
             jobs.extend(("fn", s, (a, b)) for a in both for b in both
